@@ -2,11 +2,11 @@
 # usage: bin/try_patch.sh <patch.diff> <Cnn>...   (applies to /repo, runs the quick checks, reverts)
 P=$1; shift
 cd /repo || exit 2
-git apply --check "$P" 2>/dev/null || { git apply --3way "$P" >/dev/null 2>&1 || { echo "PATCH DOES NOT APPLY: $P"; git checkout -- . ; exit 3; }; git reset -q; }
-git apply "$P" 2>/dev/null
+if ! git apply --check "$P" 2>/dev/null; then echo "PATCH DOES NOT APPLY: $P"; exit 3; fi
+git apply "$P"
 for c in "$@"; do
   out=$(timeout 300 /verif/bin/check $c 2>&1); rc=$?
   echo "== $c rc=$rc: $(echo "$out" | grep -c '^VIOLATION') violation(s)"
-  echo "$out" | grep -v '^VIOLATION\|^KNOWN-FINDING' | grep -v "^$c:" | head -${TRYN:-4}
+  echo "$out" | grep -v '^VIOLATION\|^KNOWN-FINDING' | grep -v "^$c:" | cut -c1-400 | head -${TRYN:-4}
 done
 git checkout -- . ; git status --short | head -3
